@@ -8,4 +8,5 @@
 //	c08.confirm  genuine confirmation values accepted, forged ones refused
 //	c08.peers    invalid peer points refused at every step where a peer value enters
 //	c08.ecdh     plain ECDH against x([a]B)
+//	c08.implicitsig  the byte-oriented t = (d + x~ r) mod n through the verif hook, steered onto reduction boundaries
 package c08
